@@ -25,10 +25,10 @@ pub enum Family {
 pub fn alphabet(w: &World) -> Vec<i32> {
     let cal = &w.cal;
     let mut v: Vec<i32> = vec![0, 1, -1, cal.min_day, cal.max_day];
-    for (by, bm, bd) in [(2020, 6, 15), (1970, 1, 1), (2000, 2, 29)] {
-        let mut deltas: Vec<i32> = vec![0, 100, 400, 1000, 64, 128, 192, 3072, 5120, 6144, 7168];
+    for (by, bm, bd) in [(2020, 6, 15), (2000, 2, 29)] {
+        let mut deltas: Vec<i32> = if by == 2020 { vec![0, 100, 400, 1000, 64, 128, 192, 3072, 5120, 6144, 7168] } else { vec![0, 4, 100, 400, 1024, 2048] };
         let mut p = 1;
-        while p <= 8192 {
+        while p <= 8192 && by == 2020 {
             deltas.push(p);
             p *= 2;
         }
